@@ -203,6 +203,16 @@ def sc_c18(env, spec, v, cfg):
             # numerically with the offset of the field it is assigned to)
             ob = cbuf if where == "same" else env.buffer(tag=f"o{stepno}", N=1, alignment=1, roomy=4096)
             other = HY.make_h(ft, ov, _buffer=ob)
+            # reference fields of the assigned object are bound to dressed objects of its own buffer
+            bound = {}
+            for rfn, rft, _d in ft[2]:
+                if rft[0] == "href":
+                    tv = strip_refs(rft[1], second_value(rft[1], stepno + 7))
+                    tgt = HY.make_h(rft[1], tv, _buffer=ob)
+                    okb, _ = _guard(env, what + f": binding reference field {rfn} of the object to be assigned", setattr, other, HY.pyname(ft, rfn), tgt)
+                    if okb:
+                        ov = dict(ov, **{rfn: HY_full(rft[1], tv)})
+                        bound[rfn] = (tgt, rft[1], tv)
             oexp = HY.expected(ft, ov)
             m = env.mark()
             ok, _ = _guard(env, what + f" of a dressed object to non-reference field {fn}", setattr, h, HY.pyname(spec, fn), other)
@@ -225,6 +235,15 @@ def sc_c18(env, spec, v, cfg):
                     HY.hset(spec, h, (fn,) + p2, nv)
                     cur = HY.vset(cur, (fn,) + p2, nv)
                     hread_ok(env, ft, other, HY.expected(ft, ov2), what + ": a later write to the stored copy does not show in the assigned object")
+                if where != "same":
+                    # what the assigned object REFERS to was duplicated into the container's buffer with it: the stored copy's
+                    # reference attribute shows the container's buffer, not the original referent
+                    for rfn, (tgt, rspec, tv) in bound.items():
+                        rl = [(p, lt, x) for p, lt, x in HY.hleaves(rspec, HY_full(rspec, tv)) if lt[0] == "scalar"]
+                        if rl:
+                            p3, lt3, x3 = rl[0]
+                            _guard(env, what + f": a write to the object the assigned one refers to through {rfn}", HY.hset, rspec, tgt, p3, other_scalar(lt3, x3, 1))
+                            hread_ok(env, spec, h, HY.expected(spec, cur), what + f": a later write to the ORIGINAL referent of {rfn} does not show in the container (the stored copy refers to a duplicate in its own buffer)")
         elif st[0] == "assign_ref" and refs:
             fn, rt = refs[st[1] % len(refs)]
             ov = strip_refs(rt, second_value(rt, stepno))
@@ -469,8 +488,8 @@ def with_defaults(spec, v, mode):
             out[fn] = with_defaults(ft, v[fn], "all" if mode == "nested" else mode)
         elif d is not None and mode == "all":
             out[fn] = HY.dval(d)
-        elif d is not None and mode == "bcast" and ft[0] == "array":
-            out[fn] = list(d[:1])  # equal to the default only if compared by broadcasting
+        elif d is not None and mode == "bcast" and ft[0] == "array" and any(x is None for x in ft[2]):
+            out[fn] = list(HY.dval(d)[:1])  # equal to the default only if compared by broadcasting
     return out
 
 
